@@ -131,6 +131,9 @@ class Waveform(metaclass=ABCMeta):
                              f' [0, duration={float(self.duration)}]')
         if channel not in self.defined_channels:
             raise KeyError('Channel not defined in this waveform: {}'.format(channel))
+        if output_array is not None and len(output_array) != len(sample_times):
+            # also on the constant short cut below: `output_array[:] = constant_value` fits any length
+            raise ValueError('Output array length and sample time length are different')
 
         constant_value = self.constant_value(channel)
         if constant_value is None:
@@ -143,8 +146,6 @@ class Waveform(metaclass=ABCMeta):
                     self.__sampled_cache[key] = result
                 return self.__sampled_cache[key]
             else:
-                if len(output_array) != len(sample_times):
-                    raise ValueError('Output array length and sample time length are different')
                 # use the user provided memory
                 return self.unsafe_sample(channel=channel,
                                           sample_times=sample_times,
